@@ -122,7 +122,26 @@ def initState (m : Option Mtime) (text : Text) : Option (RState Text) :=
   | none => none
   | some (c, r) => some { modified := m, source := text, active := c, rate := r.getD 0, alive := r.isSome }
 
+/-- `init_file` / `VerifReloader::new` look at the file twice:
+
+      let source = read_config(&path)?;                                          -- first look
+      let modified = fs::metadata(&path).and_then(|m| m.modified()).ok();         -- second look
+
+`v1` is what the first look finds, `v2` what the second finds (an edit can land in between).
+`statsFirst = false` is the code as it is (read, then stat): the remembered text is `v1`'s, the
+remembered mtime `v2`'s. `statsFirst = true` is the proposed patch (stat, then read). `noMtime`:
+the platform has no mtimes. With `v1 = v2` this is `initState`. -/
+def initState2 (statsFirst noMtime : Bool) (v1 v2 : FileView Text) : Option (RState Text) :=
+  let readView := if statsFirst then v2 else v1
+  let statView := if statsFirst then v1 else v2
+  match readView.text? with
+  | none => none
+  | some text => initState parse (if noMtime then none else statView.mtime?) text
+
 end
+
+/-- The model flag of finding `C15/init-read-then-stat`: `false` = `/repo` as it is. -/
+def initStatsBeforeRead : Bool := true
 
 /-! ### the real thread (`ConfigReloader::start` / `run`), with time abstracted
 
